@@ -102,11 +102,27 @@ func walkSet(tr subscriptions.Tree, topic string) []string {
 	return got
 }
 
+func dollarBelowFirst(names []string) []string {
+	out := make([]string, len(names))
+	for i, n := range names {
+		ls := strings.Split(n, "/")
+		for k := 1; k < len(ls); k++ {
+			if ls[k] == "c" {
+				ls[k] = "$c"
+			}
+		}
+		out[i] = strings.Join(ls, "/")
+	}
+	return out
+}
+
 // TestC01Matcher: every (filter, topic) pair on a trie holding that one filter.
 func TestC01Matcher(t *testing.T) {
 	rep := vk.NewReport("C01", "C01/matcher-pairs", "E1-enum")
-	topics := allNames([]string{"a", "b", "c", ""}, 4)
-	filters := allFilters([]string{"a", "b", "c", "+", ""}, 4)
+	// below the first level the name "c" is written "$c": a level that begins with '$' is a level like any other there
+	// (only a topic's FIRST level is special to MQTT 4.7.2, and such topics are outside this alphabet)
+	topics := dollarBelowFirst(allNames([]string{"a", "b", "c", ""}, 4))
+	filters := dollarBelowFirst(allFilters([]string{"a", "b", "c", "+", ""}, 4))
 	var evals, matches, nonmatches, emptyLevelPairs atomic.Int64
 	outcomes := vk.NewSet()
 	vk.ParallelFor(len(filters), func(fi int) {
